@@ -52,6 +52,7 @@ type c14Stream struct {
 	msgs   []c10Msg
 	model  *c14Model
 	sdev   []byte
+	ann    []byte // the sender's chain-key announcement as the receiver registered it
 }
 
 func c14PushOpen(ctx context.Context, v *vStore, payload []byte) (plain []byte, dev []byte, counter uint64, gpk []byte, already bool, err error) {
@@ -59,6 +60,7 @@ func c14PushOpen(ctx context.Context, v *vStore, payload []byte) (plain []byte, 
 	if err != nil {
 		return nil, nil, 0, nil, false, err
 	}
+	vRetain("OpenOutOfStoreMessage clear payload", clear)
 	em := &protocoltypes.EncryptedMessage{}
 	if err := proto.Unmarshal(clear, em); err != nil {
 		return nil, nil, 0, nil, false, fmt.Errorf("undecodable clear payload: %w", err)
@@ -73,6 +75,7 @@ func c14PushOpen(ctx context.Context, v *vStore, payload []byte) (plain []byte, 
 func TestVerifC14(t *testing.T) {
 	rep := verifkit.NewReport("C14", "c14-push")
 	defer rep.Finish(t)
+	defer vRetainedCheck(rep, "C14")
 	rep.Rule = "sessions of 1-3 senders over 2 groups; every message delivered by one of {push, log, push.push, push.log, log.push, push.log.push}, messages visited in a seeded locally-shuffled order, " +
 		"key windows W and reference windows R in {2,5,100}; oracle = C02 window model + reference window [last-R,last+R) around the last message seen; AlreadyReceived == opened through the log before; " +
 		"every single-bit flip (thorough) / seeded bit flips (quick) of push payloads, unknown and foreign group references. distinct = (session, message, delivery order) and (payload, bit)"
@@ -164,6 +167,7 @@ func TestVerifC14(t *testing.T) {
 					rep.Inconclusivef("register: %v", err)
 					return
 				}
+				st.ann = ann
 				st.model = &c14Model{c: uint64(j0), w: uint64(W), r: uint64(R), logOpened: map[uint64]bool{}}
 				streams = append(streams, st)
 			}
@@ -257,6 +261,14 @@ func TestVerifC14(t *testing.T) {
 			wit := func(step string) map[string]interface{} {
 				return map[string]interface{}{"session": tag, "group": st.gname, "counter": k, "registered_at": m.c, "delivery": fmt.Sprint(v.order), "step": step,
 					"log_opened_so_far": len(m.logOpened), "last_seen": m.last, "seen": m.seen}
+			}
+			// every re-activation of a group registers the announcements found in its log again: the same announcement
+			// delivered once more must change nothing (C02), in particular not the references a push payload is found by
+			if len(st.ann) > 0 && rng.Intn(4) == 0 {
+				if err := recv.ss.RegisterChainKey(ctx, st.g, st.sender.devicePK(st.g), st.ann); err != nil {
+					rep.Violate("C14/re-registration-error", "registering the same chain-key announcement again failed: "+err.Error(), wit("re-register"))
+				}
+				rep.Count("announcements_registered_again", 1)
 			}
 			for oi, how := range v.order {
 				step := fmt.Sprintf("%s#%d", how, oi)
